@@ -10,10 +10,12 @@ import (
 	"time"
 
 	"storj.io/drpc"
+	"storj.io/drpc/drpcconn"
 	"storj.io/drpc/drpcpool"
 
 	"verif/engine/sched"
 	"verif/engine/vs"
+	"verif/harness/tr"
 	"verif/mc"
 )
 
@@ -449,6 +451,48 @@ func wrapperCloseScenario(c cfg) *mc.Scenario {
 	return &mc.Scenario{Name: name, Body: body, Check: check, Model: sched.Preemption}
 }
 
+// realConnScenario: a real drpcconn.Conn is cached; its peer goes away (the manager terminates and
+// closes its transport, and that Close takes a while); a Take runs at any point. A connection whose
+// transport had already been closed when the Take began must not be handed out.
+func realConnScenario() *mc.Scenario {
+	body := func() {
+		ps := &poolState{}
+		sched.Cur().State()["ps"] = ps
+		cli, srv := tr.New("cli", "srv", tr.Options{Cap: -1, SlowClose: true})
+		conn := drpcconn.New(cli)
+		pool := drpcpool.New[string, *drpcconn.Conn](drpcpool.Options{Capacity: 2})
+		sched.Setup(sched.Quiesce) // the connection's goroutines are parked
+		pool.Put("k", conn)
+		vs.Go("peer-goes-away", func() { srv.EnvClose() })
+		vs.Go("taker", func() {
+			deadBefore := cli.IsClosed()
+			c, ok := pool.Take("k")
+			if ok && deadBefore {
+				ps.failf("Take handed out a connection whose transport had already been closed when the Take began (the connection does not report closed yet: %v)", !vs.IsClosed(c.Closed()))
+			}
+			if ok {
+				_ = c.Close()
+			}
+		})
+		sched.Quiesce()
+		_ = pool.Close()
+		_ = conn.Close()
+		sched.Quiesce()
+		sched.Observef("closes=%d", cli.Closes)
+	}
+	check := func(e *sched.Exec) string {
+		if len(e.Panics) > 0 {
+			return "panic: " + e.Panics[0]
+		}
+		ps := e.State()["ps"].(*poolState)
+		if len(ps.fails) > 0 {
+			return ps.fails[0]
+		}
+		return ""
+	}
+	return &mc.Scenario{Name: "pool-with-a-real-connection[peer goes away while the connection is cached ; transport Close takes a while ; Take at any point]", Body: body, Check: check, Model: sched.Deviation, NoCache: true}
+}
+
 func plans(tier string) []mc.Plan {
 	var ps []mc.Plan
 	for _, capacity := range []int{1, 2, 0} {
@@ -481,6 +525,7 @@ func plans(tier string) []mc.Plan {
 			}
 		}
 	}
+	ps = append(ps, mc.Plan{Scen: realConnScenario(), Bounds: []int{0, 1, 2}})
 	return ps
 }
 
